@@ -74,6 +74,13 @@ M = [
  ('c18_residue_order', 'C18', 'limits.py', "            order = pole_order + 2\n", "            order = pole_order + 1\n"),
  ('c19_method_map', 'C19', 'nd_scipy.py', "method = dict(complex='cs', central='3-point', forward='2-point',", "method = dict(complex='cs', central='2-point', forward='2-point',"),
  ('c19_kwargs', 'C19', 'nd_scipy.py', "kwargs=kwds, bounds=self.bounds, sparsity=self.sparsity)", "kwargs={}, bounds=self.bounds, sparsity=self.sparsity)"),
+ ('c02_median_guard', 'C02', 'limits.py', "(abs(der) > (a_median * trim_fact))) * (a_median > 1e-8) +", "(abs(der) > (a_median * trim_fact))) +"),
+ ('c02_iqr_factor', 'C02', 'limits.py', "((der < p25 - 1.5 * iqr) + (p75 + 1.5 * iqr < der)))", "((der < p25 - 2.5 * iqr) + (p75 + 2.5 * iqr < der)))"),
+ ('c02_median_is_mean', 'C02', 'limits.py', "                p25, median, p75 = np.percentile(der, [25,50, 75], axis=0)\n", "                p25, median, p75 = np.percentile(der, [25,50, 75], axis=0)\n                median = np.mean(der, axis=0)\n"),
+ ('c02_penalty_count', 'C02', 'limits.py', "        errors = outliers * np.abs(der - median)", "        errors = outliers * np.abs(der - p25)"),
+ ('c17_extrap_stage2_index', 'C17', 'fornberg.py', "c=1.0 - (rs[k - 1] / rs[k + 1]) ** m))", "c=1.0 - (rs[k - 1] / rs[k]) ** m))"),
+ ('c17_extrap_stage1_power', 'C17', 'fornberg.py', "extrap0.append(richardson(bs, k=k, c=1.0 - (rs[k - 1] / rs[k]) ** m))", "extrap0.append(richardson(bs, k=k, c=1.0 - (rs[k - 1] / rs[k]) ** (m - 1)))"),
+ ('c12_mod_cache', 'C12', 'multicomplex.py', "        r11, r22 = self.z1 * self.z1, self.z2 * self.z2\n        r = np.sqrt(r11 + r22)\n        return r\n", "        r11, r22 = self.z1 * self.z1, self.z2 * self.z2\n        r = np.sqrt(r11 + r22.real)\n        return r\n"),
 ]
 OUT = '/verif/seeded/own'
 
